@@ -74,6 +74,9 @@ func mixedKey(k int) interface{} {
 	case 3:
 		return fmt.Sprint(structKey{k / 5, "x"}) // the text of the struct key
 	}
+	if k == 4 {
+		return nil // the nil interface is a key like any other
+	}
 	return int64(k / 5) // same number as case 1, another type
 }
 
@@ -230,6 +233,11 @@ func Run(p *Plan, ch simsync.Chooser) *Outcome {
 			cache.Store(p.key(k), "p"+fmt.Sprint(k))
 		}
 	}
+	var shadow *valid.LRUCache
+	if p.Bystander > 0 && p.Shape == "seq" {
+		shadow = valid.NewLRU(2)
+		shadow.SetDelCallBackFn(func(k, v interface{}) {})
+	}
 	sim := simsync.New(ch, p.Cfg)
 	// seq shape: the client owns the model and checks each step itself
 	var seqV *detsim.Violation
@@ -247,6 +255,17 @@ func Run(p *Plan, ch simsync.Chooser) *Outcome {
 					// SetDelCallBackFn is not among the operations C10 allows concurrently)
 					cache.SetDelCallBackFn(cbFn)
 					cbOn = true
+				}
+				if shadow != nil {
+					// single client: a second cache instance is used in between (instances must not share state)
+					switch i % 3 {
+					case 0:
+						shadow.Store(i%5, i)
+					case 1:
+						shadow.Load((i + 1) % 5)
+					case 2:
+						shadow.Delete((i + 2) % 5)
+					}
 				}
 				rec := &recs[c][i]
 				rec.Client, rec.Op = c, op
@@ -274,6 +293,23 @@ func Run(p *Plan, ch simsync.Chooser) *Outcome {
 					if seqV != nil {
 						return
 					}
+				}
+			}
+		})
+	}
+	if p.Bystander > 0 && p.Shape != "seq" {
+		// an extra client works on a cache instance of its own at the same time: instances must not share state
+		other := valid.NewLRU(1 + p.Cap%3)
+		other.SetDelCallBackFn(func(k, v interface{}) {})
+		sim.Go("bystander", func() {
+			for i := 0; i < p.Bystander; i++ {
+				switch i % 4 {
+				case 0, 1:
+					other.Store("b"+fmt.Sprint(i%7), i)
+				case 2:
+					other.Load("b" + fmt.Sprint((i+3)%7))
+				case 3:
+					other.Delete("b" + fmt.Sprint((i+1)%7))
 				}
 			}
 		})
